@@ -23,6 +23,32 @@ func (m *Mutex) Unlock() {
 	vsched.Result("")
 }
 
-type RWMutex = sync.RWMutex
+// RWMutex: acquisition (read or write) is the scheduling point; the critical section runs
+// without further yields.
+type RWMutex struct{ mu sync.RWMutex }
+
+func (m *RWMutex) Lock() {
+	vsched.Yield("lock")
+	m.mu.Lock()
+	vsched.NoYieldEnter()
+}
+
+func (m *RWMutex) Unlock() {
+	vsched.NoYieldExit()
+	m.mu.Unlock()
+	vsched.Result("")
+}
+
+func (m *RWMutex) RLock() {
+	vsched.Yield("rlock")
+	m.mu.RLock()
+	vsched.NoYieldEnter()
+}
+
+func (m *RWMutex) RUnlock() {
+	vsched.NoYieldExit()
+	m.mu.RUnlock()
+	vsched.Result("")
+}
 type WaitGroup = sync.WaitGroup
 type Once = sync.Once
